@@ -16,8 +16,9 @@ SPECIALS = [NAN, PINF, NINF]
 WEIGHTS = [Q(1), Q(1), Q(1), Q(2), Q(F(1, 2)), Q(0), Q(-1), NAN]
 POSWEIGHTS = [Q(1), Q(1), Q(2), Q(F(1, 2))]
 SELS = [Q(1), Q(1), Q(0), Q(2), Q(F(1, 2)), Q(-1), NAN]
-CATS = ["a", "b", "entries", "NaN", "None"]
-CATS_NP = ["a", "b", "entries", "NaN"]
+# (among the categories: the empty string; not the string "nan", which string-valued Bags order specially)
+CATS = ["a", "b", "entries", "NaN", "None", ""]
+CATS_NP = ["a", "b", "entries", "NaN", ""]
 BOOLCATS = ["True", "False", "None"]
 FACTORS = [Q(F(1, 2)), Q(2), Q(3), Q(1), Q(0), NAN, Q(-1), Q(F(1, 4))]
 
